@@ -341,6 +341,16 @@ func (f *FS) LinkRaw(oldp, newp string) {
 	n.Nlink++
 }
 
+// RemoveRaw removes the name p (not following a final symlink) if it exists.
+func (f *FS) RemoveRaw(p string) {
+	dir, name, n, _, err := f.walk(p, false, 0)
+	if err != nil || n == nil {
+		return
+	}
+	delete(dir.Entries, name)
+	n.Nlink--
+}
+
 // Lookup returns the inode a path resolves to (following symlinks), or nil.
 func (f *FS) Lookup(p string) *Inode {
 	_, _, n, _, err := f.walk(p, true, 0)
